@@ -52,10 +52,12 @@ pub struct SetCfg {
     pub max_buckets: usize,
     /// use the alternative hasher instance (second plan of the environment)
     pub alt_hasher: bool,
+    /// offer per-key operations only for ids below this
+    pub ops_universe: Option<u8>,
 }
 impl SetCfg {
     pub fn new(plan: Plan, universe: u8) -> Self {
-        SetCfg { plan, universe, reduce: true, full_alphabet: true, max_buckets: 64, alt_hasher: false }
+        SetCfg { plan, universe, reduce: true, full_alphabet: true, max_buckets: 64, alt_hasher: false, ops_universe: None }
     }
     pub fn label(&self) -> String {
         format!("set-{}-u{}{}", self.plan.name(), self.universe, if self.reduce { "-sym" } else { "-nosym" })
@@ -411,7 +413,7 @@ impl Harness for SetHarness {
         let mut v = Vec::new();
         let mut seen_class = [false; 256];
         let mut keys = Vec::new();
-        for id in 0..self.cfg.universe {
+        for id in 0..self.cfg.ops_universe.unwrap_or(self.cfg.universe).min(self.cfg.universe) {
             if s.mpos(id).is_some() {
                 keys.push(id);
             } else if self.cfg.reduce {
@@ -632,6 +634,8 @@ pub struct SetPairs {
     pub limits: Limits,
     pub max_states: usize,
     pub wall_cap: f64,
+    /// scripted deep states (full load, tombstones) added to both state lists
+    pub extra: Vec<Vec<SetOp>>,
 }
 
 impl SetPairs {
@@ -681,8 +685,12 @@ impl Config for SetPairs {
         let obr = ob.as_ref().unwrap_or(&oa);
         let na = oa.states.min(self.max_states);
         let nb = obr.states.min(self.max_states);
-        let hists_a: Vec<Vec<SetOp>> = (0..na).map(|i| oa.history(i)).collect();
-        let hists_b: Vec<Vec<SetOp>> = (0..nb).map(|i| obr.history(i)).collect();
+        let covered_all = na == oa.states && nb == obr.states;
+        let mut hists_a: Vec<Vec<SetOp>> = (0..na).map(|i| oa.history(i)).collect();
+        let mut hists_b: Vec<Vec<SetOp>> = (0..nb).map(|i| obr.history(i)).collect();
+        hists_a.extend(self.extra.iter().cloned());
+        hists_b.extend(self.extra.iter().cloned());
+        let (na, nb) = (hists_a.len(), hists_b.len());
         let next = AtomicUsize::new(0);
         let stop = AtomicBool::new(false);
         let capped = AtomicBool::new(false);
@@ -742,8 +750,8 @@ impl Config for SetPairs {
             transitions: oa.transitions + ob.as_ref().map_or(0, |o| o.transitions),
             probes: checks.load(Ordering::Relaxed),
             executions: pairs.load(Ordering::Relaxed),
-            exhaustive: !capped.load(Ordering::Relaxed) && oa.exhaustive && obr.exhaustive && na == oa.states && nb == obr.states,
-            cap: if capped.load(Ordering::Relaxed) { Some(format!("wall cap {}s", self.wall_cap)) } else if na < oa.states || nb < obr.states { Some(format!("first {na} x {nb} states")) } else { None },
+            exhaustive: !capped.load(Ordering::Relaxed) && oa.exhaustive && obr.exhaustive && covered_all,
+            cap: if capped.load(Ordering::Relaxed) { Some(format!("wall cap {}s", self.wall_cap)) } else if !covered_all { Some(format!("first {na} x {nb} states")) } else { None },
             wall_s: t0.elapsed().as_secs_f64(),
             ..Default::default()
         };
